@@ -210,9 +210,7 @@ impl SqPackData {
     ///
     /// If the block of data is successfully parsed, it returns the file data - otherwise is None.
     pub fn read_from_offset(&mut self, offset: u64) -> Option<ByteBuffer> {
-        self.file
-            .seek(SeekFrom::Start(offset))
-            .expect("Unable to find offset in file.");
+        self.file.seek(SeekFrom::Start(offset)).ok()?;
 
         let file_info = FileInfo::read(&mut self.file).ok()?;
 
@@ -228,24 +226,22 @@ impl SqPackData {
     fn read_standard_file(&mut self, offset: u64, file_info: &FileInfo) -> Option<ByteBuffer> {
         let standard_file_info = file_info.standard_info.as_ref()?;
 
-        let mut blocks: Vec<Block> = Vec::with_capacity(standard_file_info.num_blocks as usize);
+        // the counts and sizes of the header are not trustworthy enough to reserve memory by
+        let mut blocks: Vec<Block> = Vec::new();
 
         for _ in 0..standard_file_info.num_blocks {
             blocks.push(Block::read(&mut self.file).ok()?);
         }
 
-        let mut data: Vec<u8> = Vec::with_capacity(file_info.file_size as usize);
+        let mut data: Vec<u8> = Vec::new();
 
         let starting_position = offset + (file_info.size as u64);
 
         for i in 0..standard_file_info.num_blocks {
-            data.append(
-                &mut read_data_block(
-                    &mut self.file,
-                    starting_position + (blocks[i as usize].offset as u64),
-                )
-                .expect("Failed to read data block."),
-            );
+            data.append(&mut read_data_block(
+                &mut self.file,
+                starting_position + (blocks[i as usize].offset as u64),
+            )?);
         }
 
         Some(data)
